@@ -27,6 +27,7 @@ import (
 	"strconv"
 	"strings"
 	"sync/atomic"
+	"syscall"
 	"time"
 
 	"seehuhn.de/go/pdf/zzverif/engine/ev"
@@ -196,6 +197,10 @@ func loopOwner(n int, gap time.Duration) string {
 		}
 		return shortFunc(fn)
 	}
+	// the samples share no library frame: the time goes into several calls of one stage
+	if st, _ := curStage.Load().(string); st != "" {
+		return "walk-stage:" + st
+	}
 	return "unknown"
 }
 
@@ -203,18 +208,20 @@ const hangTag = "C05-HANG-LOOP-OWNER\t"
 
 var caseStart atomic.Int64
 
-// hangSampler names the loop owner of a case that has been running for 13 s
+// hangSampler names the loop owner of a case that has been running for 9 s
 // (the worker's watchdog ends it at 20 s).
 func hangSampler() {
 	var reported int64
 	for {
 		time.Sleep(500 * time.Millisecond)
 		st := caseStart.Load()
-		if st == 0 || st == reported || time.Since(time.Unix(0, st)) < 13*time.Second {
+		if st == 0 || st == reported || time.Since(time.Unix(0, st)) < 9*time.Second {
 			continue
 		}
 		reported = st
-		fmt.Fprintf(os.Stderr, "%s%s\n", hangTag, loopOwner(24, 200*time.Millisecond))
+		// (done by 13-14 s: on a loaded machine, or in a process that is busy
+		// collecting gigabytes of garbage, the sampler needs a margin)
+		fmt.Fprintf(os.Stderr, "%s%s\n", hangTag, loopOwner(20, 200*time.Millisecond))
 	}
 }
 
@@ -246,13 +253,15 @@ func Worker(args []string) int {
 			os.Exit(procs.ExitInit)
 		}
 		g, _ := ws.t.locate(idx)
+		cpu0 := cpuTime()
+		defer func() { w.Count("cpu_us_"+g.kind, int64((cpuTime()-cpu0)/time.Microsecond)) }()
 		w.Count("mutants_"+g.kind, 1)
 		if trivial {
 			w.Count("mutants_identical_to_seed", 1)
 		} else {
 			w.Distinct(procs.Hash(data))
 		}
-		pw := ws.t.seeds[g.seed].Password
+		pw := ws.t.password(g)
 		for mode := 0; mode < numModes; mode++ {
 			o, fails := ws.runWalk(data, pw, mode, true)
 			w.Eval(1)
@@ -262,6 +271,8 @@ func Worker(args []string) int {
 			w.Count("pages_decoded", int64(o.pages))
 			w.Count("fonts_extracted", int64(o.fonts))
 			w.Count("font_programs_loaded", int64(o.glyphSets))
+			w.Count("outline_items_decoded", int64(o.olItems))
+			w.Count("name_tree_entries", int64(o.nameKeys))
 			for _, f := range fails {
 				if f.fp == "flaky" {
 					w.Note(fmt.Sprintf("case %d mode %s (%s): %s", idx, modeNames[mode], mu.Desc, f.what))
@@ -309,6 +320,29 @@ func libraryFrameOpt(text string, hang bool) string {
 	return "unknown"
 }
 
+// recursionOwner returns the innermost library function that occurs at least
+// three times in the goroutine dump, or "".
+func recursionOwner(text string) string {
+	count := map[string]int{}
+	var order []string
+	for _, m := range reFrameLine.FindAllStringSubmatch(text, -1) {
+		fn := m[1]
+		if !strings.HasPrefix(fn, "seehuhn.de/go/") || strings.Contains(fn, "zzverif/") || strings.Contains(fn, "[...]") {
+			continue
+		}
+		if count[fn] == 0 {
+			order = append(order, fn)
+		}
+		count[fn]++
+	}
+	for _, fn := range order { // frames are listed innermost first
+		if count[fn] >= 3 && !leafHelpers[shortFunc(fn)] {
+			return shortFunc(fn)
+		}
+	}
+	return ""
+}
+
 func incidentFingerprint(in *procs.Incident) string {
 	switch in.Kind {
 	case "hang":
@@ -323,6 +357,11 @@ func incidentFingerprint(in *procs.Incident) string {
 		i := strings.Index(in.Stderr, "PROCS-WATCHDOG")
 		if i < 0 {
 			i = 0
+		}
+		// no sampled loop owner (the sampler did not finish in time): a hang in a
+		// recursive walker shows its functions many times on the one stack there is
+		if fn := recursionOwner(in.Stderr[i:]); fn != "" {
+			return "hang:" + fn
 		}
 		return "hang:" + libraryFrameOpt(in.Stderr[i:], true)
 	case "oom":
@@ -341,6 +380,22 @@ func incidentFingerprint(in *procs.Incident) string {
 		}
 	}
 	return "crash:" + site
+}
+
+// cpuTime returns the CPU time (user + system) the process has used.
+func cpuTime() time.Duration {
+	var ru syscall.Rusage
+	if syscall.Getrusage(syscall.RUSAGE_SELF, &ru) != nil {
+		return 0
+	}
+	return time.Duration(ru.Utime.Nano() + ru.Stime.Nano())
+}
+
+func (t *table) password(g group) string {
+	if g.seed < 0 {
+		return ""
+	}
+	return t.seeds[g.seed].Password
 }
 
 func seedsFor(all []*Seed, thorough bool) []*Seed {
@@ -367,13 +422,19 @@ func Run(tier string) int {
 		"first 48 and last 16 bytes of every stream body, raw and decoded -> 4 values; stream body cut with and without /Length adjusted; " +
 		"body of object i spliced into object j for all pairs) at EVERY position, inside object streams and the cross-reference stream as well " +
 		"(decoded, mutated, re-encoded); thorough adds all pairs of mutations on the values of structural keys. " +
-		"Every file is walked in 4 modes. distinct = distinct mutated files that differ from their seed")
+		"quick adds, for the first seed, all PAIRS of rewirings of the link references of the outline / page tree / name tree (/Kids /Parent /First /Last /Next /Prev /Outlines /Pages /Dests) to every node of those structures (thorough: every seed). " +
+		"In addition a family of CRAFTED files, built by the harness and not by mutation: (structure, link pattern, size) — n nodes of a recursive structure the walk visits " +
+		"(outline items, page tree nodes, name tree nodes, nested form XObjects, tiling patterns, Type 3 fonts, ToUnicode /UseCMap chains, bare reference chains, nested arrays/dictionaries) " +
+		"in a minimal valid document, every link slot of every node wired to the same relative target out of {none, i+1, i+2, i, 0, i-1}, ALL patterns (chains, loops, shared sub-trees = DAG bombs), n = 1..24, " +
+		"and n in {32..1000} for the patterns with at most one forward slot; and one stream with EVERY filter chain of length <= 3 (thorough 4) over the 11 filter names x 5 payloads, the body being valid for the first layer. " +
+		"Every file is walked in 4 modes. distinct = distinct files that differ from their seed")
 	r.Assume(
 		"deviation bound 1 (thorough: 2 on the structural subset, both sites in the same layer)",
 		"after a mutation that moves later objects, cross-reference offsets, startxref, /Length of a re-encoded container and the offset table of an object stream are brought up to date, so that the mutant deviates in one place only; truncations and byte mutations get no such repair",
 		"allocation is the growth of /gc/heap/allocs:bytes of a GOMAXPROCS=1 process over one walk (cumulative, an upper bound of live memory); allowance 64 MiB + 2*sum of limits.StreamBudget(raw length) over the streams the walk handed to DecodeStream",
 		"hang = one mutant (4 walks) running longer than 20 s in a worker, reproduced 5x in isolated processes; crash / out-of-memory (ulimit -v 6 GiB, max stack 256 MiB) likewise",
-		"a walk fetches at most 65536 cross-referenced objects, reads at most 1 MiB from each decoded stream and visits at most 4096 pages",
+		"a walk fetches at most 65536 cross-referenced objects, reads at most 1 MiB from each decoded stream and decodes at most 4096 pages (it keeps iterating over the page tree and the name tree to their end without a cap of its own, so that a walker that yields more than the file contains shows up as time/allocation)",
+		"crafted files deviate from a valid document only in the crafted structure; a DAG of n <= 24 nodes has < 2^25 paths, enough for an exponential walker to exceed the allocation allowance (from n ~ 16) or the 20 s watchdog, and small enough that a worker under ulimit -v ends it without harming the machine",
 		"errors returned by the library are never judged",
 	)
 
@@ -390,6 +451,10 @@ func Run(tier string) int {
 	}
 	for k, v := range t.dims {
 		r.Dim(k, v)
+	}
+	if only := os.Getenv("C05_ONLY"); only != "" {
+		// debugging aid: run only the groups whose kind starts with the given prefix; such a run is never exhaustive
+		r.Capped("restricted to groups " + only + "* by C05_ONLY")
 	}
 	r.Dim("mutants_total", t.total)
 	r.Dim("modes", modeNames[:])
@@ -445,7 +510,7 @@ func Run(tier string) int {
 				continue
 			}
 			g, _ := t.locate(in.Index)
-			c := Case{Mut: mu, Mode: "all", Password: seeds[g.seed].Password, File: data}
+			c := Case{Mut: mu, Mode: "all", Password: t.password(g), File: data}
 			if in.Reproduced == in.Attempts {
 				r.Violation(incidentFingerprint(in), in.Describe()+" — "+mu.Seed+": "+mu.Desc, c)
 			} else {
@@ -524,6 +589,9 @@ func selfTest(t *table) string {
 			return fmt.Sprintf("seed %s: cross-reference fix-up after a length-changing edit is wrong (%v %v)", s.Name, o.openErr, o.stage)
 		}
 	}
+	if msg := craftSelfTest(); msg != "" {
+		return msg
+	}
 	for _, idx := range []int{1, t.total / 3, t.total / 2, t.total - 1} {
 		data, mu, _, err := t.mutant(idx)
 		if err != nil {
@@ -534,6 +602,88 @@ func selfTest(t *table) string {
 		if err := json.Unmarshal(js, &c); err != nil || string(c.File) != string(data) || c.Mut != mu {
 			return fmt.Sprintf("case %d does not survive the JSON round trip", idx)
 		}
+	}
+	return ""
+}
+
+// craftSelfTest checks that the hand-built files are documents the library
+// reads without complaint and that the walk reaches the crafted structure:
+// the chain pattern of every structure (3 nodes) and two valid filter chains.
+func craftSelfTest() string {
+	structIdx := func(name string) int {
+		for i, s := range craftStructs {
+			if s.name == name {
+				return i
+			}
+		}
+		return -1
+	}
+	type want struct {
+		name string
+		a, b int
+		ok   func(o *obs) bool
+	}
+	for _, w := range []want{
+		{"outline", tNext, tNone, func(o *obs) bool { return o.olItems == 3 }},
+		{"outline", tNone, tNext, func(o *obs) bool { return o.olItems == 3 }},
+		{"outline", tNext, tNext, func(o *obs) bool { return o.olItems >= 3 }}, // (how often a shared node is reported is the library's business)
+		{"pages", tNext, tNone, func(o *obs) bool { return o.pages == 1 && o.chars > 0 }},
+		{"pages", tNext, tNext, func(o *obs) bool { return o.pages >= 1 && o.chars > 0 }},
+		{"names", tNext, tNone, func(o *obs) bool { return o.nameKeys == 2 }},
+		{"names", tNext, tNext, func(o *obs) bool { return o.nameKeys >= 2 }},
+		{"xobj", tNext, tNext, func(o *obs) bool { return o.streams == 5 }},
+		{"pattern", tNext, tNext, func(o *obs) bool { return o.streams == 5 }},
+		{"type3", tNext, tNext, func(o *obs) bool { return o.fonts == 2 && o.chars >= 3 }},
+		{"tounicode", tNext, tNone, func(o *obs) bool { return o.fonts == 2 && o.chars == 3 }},
+		{"refchain", tNext, tNone, func(o *obs) bool { return o.chars == 2 }},
+		{"nest", 0, tNone, func(o *obs) bool { return o.chars == 2 }},
+		{"nest", 2, tNone, func(o *obs) bool { return o.chars == 2 }},
+	} {
+		c := craftCase{st: structIdx(w.name), a: w.a, b: w.b, n: 3}
+		data := c.build()
+		for mode := 0; mode < numModes; mode++ {
+			o := walk(data, "", mode)
+			if o.openErr != nil || len(o.panics) > 0 {
+				return fmt.Sprintf("crafted file %v does not open in mode %s: %v %v", c, modeNames[mode], o.openErr, o.panics)
+			}
+			for st, v := range o.stage {
+				if v != "ok" {
+					return fmt.Sprintf("crafted file %v mode %s: stage %s is %s", c, modeNames[mode], st, v)
+				}
+			}
+			if !w.ok(&o) {
+				return fmt.Sprintf("crafted file %v mode %s: the walk did not reach the structure as intended (pages=%d streams=%d fonts=%d chars=%d outline items=%d name keys=%d)",
+					c, modeNames[mode], o.pages, o.streams, o.fonts, o.chars, o.olItems, o.nameKeys)
+			}
+		}
+	}
+	pl, err := chainPayloads()
+	if err != nil {
+		return "building the filter chain payloads: " + err.Error()
+	}
+	for _, w := range []struct {
+		chain   []string
+		payload int
+		decoded int64
+	}{
+		{[]string{"FlateDecode"}, 0, int64(len(pl[0]))},
+		{[]string{"ASCIIHexDecode", "FlateDecode"}, 1, int64(len(pl[0]))},
+		{[]string{"DCTDecode"}, 2, 32 * 32 * 3},
+		{[]string{"ASCII85Decode", "DCTDecode"}, 2, 32 * 32 * 3},
+		{[]string{"LZWDecode", "CCITTFaxDecode"}, 3, 2 * 1728 / 8},
+		{[]string{"RunLengthDecode", "JBIG2Decode"}, 4, 16},
+	} {
+		data := buildChainFile(w.chain, pl[w.payload])
+		o := walk(data, "", modeStop)
+		// decoded = the content stream (33 + 30 bytes) + the image
+		content := int64(len("BT /F1 10 Tf 10 50 Td (Hi) Tj ET\nq 32 0 0 32 10 10 cm /Im0 Do Q\n"))
+		if o.openErr != nil || len(o.panics) > 0 || o.stage["drain"] != "ok" || (w.decoded >= 0 && o.decoded != content+w.decoded) || o.decoded <= content {
+			return fmt.Sprintf("crafted filter chain %v over payload %s: open=%v stages=%v decoded=%d (want %d+%d)", w.chain, chainPayloadNames[w.payload], o.openErr, o.stage, o.decoded, content, w.decoded)
+		}
+	}
+	// the index arithmetic of the chain space
+	if got := strings.Join(chainAt(chainCount(2)+6*121+0*11+3), " "); got != "DCTDecode ASCIIHexDecode FlateDecode" {
+		return "chainAt: " + got
 	}
 	return ""
 }
